@@ -427,6 +427,7 @@ class Interp:
         # loops unrolled over a compile-time sequence / with statically
         # decided exits: (function qualname, line) -> largest trip count
         self.static_loops = {}
+        self.class_writes = []  # (class qualname, attribute, value)
         # seq -> (first argument, path atoms at the call) for the call log
         self.call_info = {}
         self.handled = []  # (ExcInfo, handler function) caught raises
@@ -734,7 +735,13 @@ class Interp:
 
     def class_attr(self, ci: ClassInfo, name):
         """Attribute lookup through the MRO; returns ABSENT if not found in
-        repo classes (and no external base could supply it)."""
+        repo classes (and no external base could supply it).  A class
+        attribute that an __init_subclass__ hook of a base rebinds when the
+        class is created has the value the hook gives it."""
+        if not (name.startswith('__') and name.endswith('__')):
+            hw = self._hook_writes(ci)
+            if name in hw:
+                return hw[name]
         for c in self.prog.mro(ci):
             if isinstance(c, ClassInfo):
                 if name in c.bindings:
@@ -742,6 +749,49 @@ class Interp:
             else:
                 pass
         return ABSENT
+
+    def _hook_writes(self, ci):
+        """{attribute: value} stored on ``ci`` by the __init_subclass__
+        hooks of its bases (run abstractly, in MRO order)."""
+        cache = self.__dict__.setdefault('_hook_cache', {})
+        if ci.qualname in cache:
+            return cache[ci.qualname]
+        cache[ci.qualname] = {}  # re-entrancy: literal values inside a hook
+        hooks = []
+        for c in self.prog.mro(ci)[1:]:
+            if isinstance(c, ClassInfo) and '__init_subclass__' in \
+                    c.bindings:
+                h = self.prog.find_method(c, '__init_subclass__')
+                if h is not None:
+                    hooks.append(h)
+                break  # the nearest hook chains to the others via super()
+        if not hooks:
+            return cache[ci.qualname]
+        saved = (self.cur_module, self.cur_func, self.stack, self.pending)
+        e0, c0, n0 = len(self.effects), len(self.calls), len(self.notes)
+        w0 = len(self.class_writes)
+        self.stack = [('<class %s>' % ci.qualname, None)]
+        self.pending = []
+        try:
+            for h in hooks:
+                st = State({}, self.static_store, Knowledge())
+                self.cur_module, self.cur_func = h.module, None
+                outs = self.call_outcomes(h, [ci], {}, st, ci.node)
+                if any(o.kind == 'raise' for o in outs) or self.pending:
+                    raise Unsupported('__init_subclass__ of %s may raise '
+                                      'for %s' % (h.owner.short, ci.short))
+            res = {}
+            for q, nm, v in self.class_writes[w0:]:
+                if q == ci.qualname:
+                    res[nm] = v
+            cache[ci.qualname] = res
+        finally:
+            self.cur_module, self.cur_func, self.stack, self.pending = saved
+            del self.effects[e0:]
+            del self.calls[c0:]
+            del self.notes[n0:]
+            del self.class_writes[w0:]
+        return cache[ci.qualname]
 
     # -- calling -------------------------------------------------------------
     def run_function(self, fi: FuncInfo, args, kwargs=None, state=None):
@@ -2269,6 +2319,7 @@ class Interp:
             return
         if isinstance(base, ClassInfo):
             self.effect('class-attr-write', base.short, name, node)
+            self.class_writes.append((base.qualname, name, v))
             return
         if isinstance(base, ModuleInfo):
             self.effect('global-write', base.name + '.' + name, T.show(v),
@@ -2790,6 +2841,11 @@ class Interp:
             if k.arg is None:
                 dv = self.eval(k.value, state, frame)
                 ok_ = False
+                if isinstance(dv, Sym) and dv.op == 'kwargs':
+                    # the **kwargs of the enclosing function, passed on
+                    for kk, vv in dv.args[0]:
+                        kwargs[kk] = vv
+                    ok_ = True
                 if isinstance(dv, Ref):
                     ob_ = self.obj(state, dv)
                     if isinstance(ob_, DictObj) and all(
